@@ -182,7 +182,15 @@ func getName(nodeSet NodeSet, ok bool, nameType nameType) (Result, error) {
 		return String(""), nil
 	}
 
+	// The functions report on the first node in document order, which is not
+	// nodeSet[0] for a node-set held in reverse document order.
 	firstNode := nodeSet[0]
+
+	for _, i := range nodeSet[1:] {
+		if i.Pos() < firstNode.Pos() {
+			firstNode = i
+		}
+	}
 
 	if n, ok := firstNode.Node().(node.NamedNode); ok {
 		if nameType == localOnly || (nameType == localAndNamespace && n.Space() == "") {
